@@ -18,6 +18,43 @@ open WK.Gen.C26
 theorem c26_call_facts : callIdFromAtomicCounter = true ∧ callChannelBuffered1 = true ∧
     callStoreBeforeSend = true ∧ completeKeyedByFrameRequestID = true := by decide
 
+/-- round 6 — the lock regions of pending.go from which the LTS takes its atomic steps, pinned to
+    the statement lists regenerated from the source (WK/Gen/C26.lean: pending*Prog):
+    * `.store c`: the closed test and the insert `shard.entries[id]=ch` both lie inside
+      `p.closeMu.RLock() … RUnlock()` (so no insert can fall between FailAll's begin and end), the
+      closed branch releases the lock and then only try-sends the close error;
+    * `.completeRemove`/`.deliver`: lookup + delete of `id` in one `shard.mu` region, the send
+      `trySend(ch,resp)` after `shard.mu.Unlock()` and only if the entry existed;
+    * `.delete`: one `shard.mu` region; `.failBegin`/`.failShard`/`.failEnd`: `closeMu.Lock()`
+      first, `closed/closeErr` set once before the sweep, each shard's map swapped inside its
+      `shard.mu` region and its channels try-sent the error, `closeMu.Unlock()` last;
+    * every send is `select { case ch<-resp: default: }` (never blocks), shards by `id&p.mask`.
+    Any edit of these bodies (send moved under a lock, RUnlock before the insert, a missing
+    `default:`, FailAll not resetting a shard …) changes a generated list and breaks this theorem. -/
+theorem c26_pending_regions_src :
+    pendingStoreProg = ["if ch==nil||cap(ch)<1 {", "panic(invalidPendingChannelPanic)", "}",
+      "p.closeMu.RLock()", "if p.closed {", "err:=p.closeErr", "p.closeMu.RUnlock()",
+      "trySend(ch,Response{Err:err})", "return", "}", "shard:=p.shardFor(id)", "shard.mu.Lock()",
+      "shard.entries[id]=ch", "shard.mu.Unlock()", "p.closeMu.RUnlock()"] ∧
+    pendingDeleteProg = ["shard:=p.shardFor(id)", "shard.mu.Lock()", "delete(shard.entries,id)",
+      "shard.mu.Unlock()"] ∧
+    pendingCompleteProg = ["shard:=p.shardFor(id)", "shard.mu.Lock()", "ch,ok:=shard.entries[id]",
+      "if ok {", "delete(shard.entries,id)", "}", "shard.mu.Unlock()", "if !ok {", "return false", "}",
+      "trySend(ch,resp)", "return true"] ∧
+    pendingFailAllProg = ["p.closeMu.Lock()", "if !p.closed {", "p.closed=true", "p.closeErr=err", "}",
+      "for i,_ range p.shards {", "shard:=&p.shards[i]", "shard.mu.Lock()", "entries:=shard.entries",
+      "shard.entries=make(map[uint64]chanResponse)", "shard.mu.Unlock()", "for _,ch range entries {",
+      "trySend(ch,Response{Err:err})", "}", "}", "p.closeMu.Unlock()"] ∧
+    pendingShardForProg = ["return &p.shards[id&p.mask]"] ∧
+    pendingTrySendProg = ["select {", "case ch<-resp:", "default:", "}"] := by decide
+
+/-- non-vacuity / reading of the pinned lists: in Store the insert sits strictly between the
+    read-lock and its release, in Complete the send comes after the shard unlock. -/
+example : pendingStoreProg.idxOf "p.closeMu.RLock()" < pendingStoreProg.idxOf "shard.entries[id]=ch" ∧
+    pendingStoreProg.idxOf "shard.entries[id]=ch" < pendingStoreProg.length - 1 ∧
+    pendingStoreProg.getLast? = some "p.closeMu.RUnlock()" ∧
+    pendingCompleteProg.idxOf "shard.mu.Unlock()" < pendingCompleteProg.idxOf "trySend(ch,resp)" := by decide
+
 /-- **own_response**: whatever a caller receives is a response to its own request id
     (or a terminal error), and the same holds for anything still on its way to it. -/
 theorem c26_own_response (S : Nat) (hS : 0 < S) (st : PT) (h : Reachable S st) (c : Nat) :
